@@ -72,44 +72,98 @@ ODD = [
     'line1\n  indented\n\nline4', ' \n', 'tab\there: x', 'caf\u00e9 \u4e2d',
     "'single'", 'a #b', 'key: [1, 2]', '- - x', 'x\n...\n', '%d%%', '\\n',
 ]
+# the rest of the JSON string domain a manifest can legally carry: non-BMP
+# characters (stored by zkutils.put as \\ud83d\\ude80 escape pairs), control
+# characters, line/paragraph separators, BOM, YAML 1.1 scalar look-alikes
+NASTY = [
+    '\U0001F680', 'launch \U0001F680 now', '\U00020000\U0001F600', 'a\U0010FFFDb',
+    '\x00', '\x01\x02', '\x1b[0m', '\x7f', '\x85', '\u2028', '\u2029',
+    '\ufeff', 'a\rb', '\r\n', 'x\x0cy', '\u00a0', '\ud7ff\ue000\ufffd',
+    '1e5', '1e-05', '1e+16', '1:30', '190:20:30', '+1', '-0', '.inf', '-.inf',
+    '.nan', 'Infinity', 'NaN', '0o7', '0b101', '1.', '1.e3', '1,000', 'on',
+    'off', 'y', 'n', 'Y', 'N', 'Null', 'NULL', 'TRUE', 'False', ': ', '# ',
+    'a: ', ' #', 'k: v #c', '- ', '?', ':', ',', '[', ']', '{', '}', '"',
+    "'", '\\', '\\ud83d\\ude80', '\\x41', '%', '@', '`', '!!str x', '!!binary |',
+    '\n a', ' \na', 'a \nb', 'a\n\tb', 'a\n\n', '\n\n', '\ta', 'a\n ',
+]
+WIDE_TEXT = st.text(max_size=6)      # any code point except surrogates
+STRINGS = ODD + NASTY
 # one draw for a catalogue string; sometimes glued to generated text
 STRING = st.one_of(
-    st.sampled_from(ODD), st.sampled_from(ODD),
-    st.tuples(st.sampled_from(ODD), TEXT).map(''.join), TEXT)
-WORD = st.sampled_from(['web', 'app', 'db_1', 'sshd', 'a', 'http-0', 'x9', 'worker'])
+    st.sampled_from(STRINGS), st.sampled_from(STRINGS[::-1]),
+    st.tuples(st.sampled_from(STRINGS), TEXT).map(''.join), TEXT, WIDE_TEXT)
+WORD = st.sampled_from(['web', 'app', 'db_1', 'sshd', 'a', 'http-0', 'x9',
+                        'worker'])
 
+# JSON numbers: exponent forms (1e-05, 1e+16 as json.dumps writes them), very
+# large / small magnitudes, signed zero, integers beyond 64 bit
+FLOATS = st.one_of(
+    st.sampled_from([
+        1e-05, 1e+16, 1e-300, 1.7976931348623157e+308, 5e-324, -0.0, 0.0,
+        1.0, 1e22, 1e21, 1.2345678901234568e+17, 0.1, -1e-07, 1.5e+300,
+        2.5e-05, -1e+16, 100000.0, 1e15, 9999999999999998.0]),
+    st.floats(allow_nan=False, allow_infinity=False))
+BIGINTS = st.one_of(
+    st.sampled_from([2 ** 31, 2 ** 63, -2 ** 63 - 1, 10 ** 30, -10 ** 18,
+                     2 ** 53 + 1]),
+    st.integers(-10 ** 30, 10 ** 30))
+
+
+def _number(small):
+    """Mostly the ordinary small integer, sometimes any JSON number."""
+    return st.one_of(small, small, small, FLOATS, BIGINTS)
+
+
+JSON_SCALAR = st.one_of(st.none(), st.booleans(), st.integers(-5, 5), FLOATS,
+                        BIGINTS, st.sampled_from(STRINGS), WIDE_TEXT)
+JSON_KEY = st.one_of(st.sampled_from(['k', 'yes', '1', '~', '', 'a: b',
+                                      '? x', '\U0001F680', 'k' * 200, 'null']),
+                     st.text(max_size=4))
+JSON_VALUE = st.recursive(
+    JSON_SCALAR,
+    lambda inner: st.one_of(st.lists(inner, max_size=3),
+                            st.dictionaries(JSON_KEY, inner, max_size=3)),
+    max_leaves=6)
 
 SERVICE = st.fixed_dictionaries({
     'name': WORD, 'command': STRING,
-    'restart': st.fixed_dictionaries({'limit': st.integers(0, 5),
-                                      'interval': st.integers(1, 600)}),
+    'restart': st.fixed_dictionaries({
+        'limit': st.integers(0, 5),
+        'interval': _number(st.integers(1, 600))}),
 })
 ENDPOINT = st.fixed_dictionaries({
     'name': WORD, 'port': st.integers(0, 65535),
     'type': st.sampled_from(['infra', None]),
 })
 ENVIRON = st.fixed_dictionaries({'name': WORD.map(str.upper), 'value': STRING})
-# keys of etc/schema/app.json plus what masterapi adds; values keep the types
-# JSON gives back (str, int, bool, None, list, dict).
+# keys of etc/schema/app.json plus what the master side adds; values range over
+# the JSON value domain (str, int, float, bool, None, list, dict - nested and
+# empty). EventMgr is schema-agnostic: it must cache whatever JSON document is
+# in /scheduled, so 'annotations' carries an arbitrary small JSON tree.
 MANIFEST = st.fixed_dictionaries(
     {
         'memory': st.sampled_from(['100M', '1G', '512M']),
         'cpu': st.sampled_from(['10%', '100%', '250%']),
         'disk': st.sampled_from(['500M', '2G']),
         'services': st.lists(SERVICE, min_size=1, max_size=2),
-        'priority': st.integers(0, 100),
+        'priority': _number(st.integers(0, 100)),
     },
     optional={
         'endpoints': st.lists(ENDPOINT, max_size=2),
         'environ': st.lists(ENVIRON, max_size=2),
+        'args': st.lists(STRING, max_size=3),
         'identity_group': st.one_of(st.none(), WORD),
         'shared_network': st.booleans(),
         'ephemeral_ports': st.fixed_dictionaries(
             {'tcp': st.integers(0, 5), 'udp': st.integers(0, 5)}),
-        'affinity_limits': st.fixed_dictionaries(
-            {'server': st.integers(1, 3)}),
+        'affinity_limits': st.one_of(
+            st.just({}),
+            st.fixed_dictionaries({'server': st.integers(1, 3)})),
         'tickets': st.lists(WORD, max_size=2),
         'lease': st.sampled_from(['0s', '1h', '7d']),
+        'annotations': st.one_of(
+            st.just({}), st.just({'a': [], 'b': {}}),
+            st.dictionaries(JSON_KEY, JSON_VALUE, max_size=2)),
     })
 
 
@@ -140,7 +194,10 @@ PDATA_DICT = st.tuples(
     st.one_of(st.none(), st.integers(0, 9)), st.integers(0, 3),
     st.one_of(st.none(),
               st.integers(1578268800000, 1609459200000).map(
-                  lambda ms: ms / 1000.0))).map(_pdata)
+                  lambda ms: ms / 1000.0),
+              st.integers(1578268800000, 1609459200000).map(
+                  lambda ms: ms / 1000.0),
+              FLOATS)).map(_pdata)
 # None: legacy placement node without data (rare)
 PDATA = st.sampled_from(list(range(12))).flatmap(
     lambda die: st.none() if die == 0 else PDATA_DICT)
@@ -169,7 +226,7 @@ def _old_file(draw, manifest, can_same):
     if kind == 1 and manifest is not None:
         # same manifest, earlier placement data
         return {'manifest': manifest, 'pdata': draw(PDATA)}
-    if manifest is not None and 'args' not in manifest:
+    if manifest is not None and len(manifest.get('args', ())) < 50:
         # an earlier version of the manifest
         prio, mem = draw(OLD_EDIT)
         old = dict(manifest)
@@ -217,7 +274,7 @@ NAME_ORDER = st.lists(st.sampled_from(POOL), min_size=7, max_size=7,
                       unique=True)
 ROLES = st.lists(
     st.sampled_from(['extra', 'missing', 'existing', 'existing', 'absent']),
-    min_size=0, max_size=5)
+    min_size=0, max_size=4)
 SUFFIX = st.sampled_from(['abc123_x', 'q0w9e8r7'])
 PARTIAL = st.sampled_from(['', 'cpu: 10%\nmemo', 'services:\n- command: "x'])
 BIG_AT = st.sampled_from(list(range(30)))
@@ -253,7 +310,7 @@ def _shuffled(draw, insts):
 def _sync_case(draw):
     roles = draw(ROLES)
     if draw(DIE4) != 0:
-        roles = ['extra', 'missing', 'existing'] + roles[:4]
+        roles = ['extra', 'missing', 'existing'] + roles[:2]
     names = draw(NAME_ORDER)[:len(roles)]
     big_at = draw(BIG_AT)
     insts = [_instance(draw, name, role, big=(idx == big_at))
